@@ -477,6 +477,7 @@ def _wait_until(start):
 
 
 def child_main(conn, px, variant):
+    _stack_dumps()
     me = Caller('ch', px, variant)
     conn.send(('up',))
     while True:
@@ -529,6 +530,18 @@ class ThreadCaller:
         self.q.put(None)
 
 
+def _reap(pr):
+    """Run the SpawnProcess finalizer (it joins the process's logger thread) NOW, from a quiet point of the harness.
+    Left to the garbage collector it runs inside whatever thread happens to allocate - seen: inside a starting thread
+    that holds threading._shutdown_locks_lock, where Thread.join() then blocks forever on that same lock."""
+    f = getattr(pr, '_finalizer_', None)
+    if f is not None:
+        try:
+            f()
+        except Exception:  # noqa: BLE001
+            pass
+
+
 class ChildCaller:
     def __init__(self, px, variant):
         import multiprocessing
@@ -558,6 +571,8 @@ class ChildCaller:
             pass
         if self.pr.exitcode is None:
             self.pr.kill()
+            self.pr.join(5)
+        _reap(self.pr)
 
 
 class World:
@@ -605,6 +620,7 @@ class World:
             self.server.shutdown()
         except Exception:  # noqa: BLE001
             pass
+        _reap(getattr(self.server, '_process', None))
 
 
 def _remote_error_class(e):
@@ -905,11 +921,25 @@ def run_item(item):
     return {'id': item['id'], 'status': 'hang', 'detail': last, 'sig': {'what': 'hang'}}
 
 
+def _stack_dumps():
+    """SIGUSR1 -> Python stacks of all threads on stderr (= the job's log): evidence when a hang is reported"""
+    try:
+        import faulthandler
+        import signal
+        faulthandler.register(signal.SIGUSR1, all_threads=True)
+    except Exception:  # noqa: BLE001
+        pass
+
+
 def run_job(job):
+    import gc
+    _stack_dumps()
+    gc.disable()   # cyclic garbage (process objects with finalizers that join threads) is collected between items only
     res = []
     for item in job['items']:
         t0 = time.time()
         r = run_item(item)
+        gc.collect()
         r['wall'] = round(time.time() - t0, 2)
         r['kind'] = item['kind']
         for k in ('src', 'variant', 'sc', 'seed'):
